@@ -282,8 +282,8 @@ func sendValue(op *Op, idx int) int {
 }
 
 // result strings (the observation side produces the same forms)
-func ResRecv(v int) string                { return fmt.Sprintf("v=%d", v) }
-func ResRecv2(v int, ok bool) string      { return fmt.Sprintf("v=%d,ok=%v", v, ok) }
+func ResRecv(v int) string           { return fmt.Sprintf("v=%d", v) }
+func ResRecv2(v int, ok bool) string { return fmt.Sprintf("v=%d,ok=%v", v, ok) }
 func ResSel(i, v int, ok bool) string {
 	if i == 0 || i == 1 {
 		return fmt.Sprintf("i=%d,v=%d,ok=%v", i, v, ok)
